@@ -275,6 +275,66 @@ pub fn c01_clusters(rng: &mut Rng, thorough: bool) -> Scenario {
     Scenario { ops, label: format!("c01clusters n={} cc={}", clusters.len(), cfg.cc) }
 }
 
+/// the all-zero key (its separator is shorter than any prefix) plus a cluster with many leading zero
+/// bits, sized so that the first branch node is nearly full; then a few far keys (the node is
+/// rebuilt with a shorter prefix while its first chunk is kept), then sparse updates
+pub fn c01_zero_prefix(rng: &mut Rng, thorough: bool) -> Scenario {
+    let mut ops = Vec::new();
+    let mut ids = Ids::new();
+    let mut live = Live::default();
+    let mut cfg = gen_cfg(rng);
+    cfg.rollback = false;
+    cfg.ht = 64000;
+    ops.push(Op::Open(cfg.clone()));
+    let zero_bytes = rng.range(16, 29) as usize;
+    let n = rng.range(340, if thorough { 420 } else { 400 }) as usize;
+    let vlen = *rng.pick(&[1300usize, 1300, 1250, 1000]);
+    let mut keys: Vec<Key> = vec![[0u8; 32]];
+    for i in 1..=n {
+        let mut k = [0u8; 32];
+        k[zero_bytes] = (i >> 8) as u8;
+        k[zero_bytes + 1] = (i & 0xff) as u8;
+        if rng.chance(1, 3) {
+            k[31] = rng.below(256) as u8;
+        }
+        keys.push(k);
+    }
+    let mut b: Vec<(Key, Acc)> = keys.iter().map(|k| (*k, Acc::Write(Some((vlen, rng.next() % 1_000_000))))).collect();
+    b.sort_by(|a, b| a.0.cmp(&b.0));
+    b.dedup_by(|a, b| a.0 == b.0);
+    live.apply(&b);
+    ops.extend(commit_ops(ids.s(), ids.c(), b, false));
+    ops.push(Op::CheckAll { proofs: 2 });
+    // far keys whose mutual separators have a chosen length
+    let sep = rng.range(2, 250) as usize;
+    let mut o0 = [0u8; 32];
+    o0[0] = 0x80;
+    let mut o1 = o0;
+    o1[(sep - 1) / 8] |= 1 << (7 - ((sep - 1) % 8));
+    let mut o2 = o1;
+    o2[sep / 8] |= 1 << (7 - (sep % 8));
+    let mut far: Vec<(Key, Acc)> = [o0, o1, o2].iter().map(|k| (*k, Acc::Write(Some((vlen, rng.next() % 1_000_000))))).collect();
+    far.sort_by(|a, b| a.0.cmp(&b.0));
+    far.dedup_by(|a, b| a.0 == b.0);
+    live.apply(&far);
+    ops.extend(commit_ops(ids.s(), ids.c(), far, false));
+    ops.push(Op::CheckAll { proofs: 2 });
+    for _ in 0..rng.range(1, 4) {
+        let mut b: Vec<(Key, Acc)> = Vec::new();
+        for _ in 0..rng.range(1, 6) {
+            let k = keys[rng.below(keys.len() as u64) as usize];
+            b.push((k, if rng.chance(1, 4) { Acc::Write(None) } else { Acc::Write(Some((vlen, rng.next() % 1_000_000))) }));
+        }
+        b.push((rng.key(), Acc::Write(Some((vlen, 5)))));
+        b.sort_by(|a, b| a.0.cmp(&b.0));
+        b.dedup_by(|a, b| a.0 == b.0);
+        live.apply(&b);
+        ops.extend(commit_ops(ids.s(), ids.c(), b, false));
+        ops.push(Op::CheckAll { proofs: 2 });
+    }
+    Scenario { ops, label: format!("c01zero zb={} n={} sep={}", zero_bytes, n, sep) }
+}
+
 pub fn c02(rng: &mut Rng, thorough: bool) -> Scenario {
     let mut ops = Vec::new();
     let mut ids = Ids::new();
@@ -1066,6 +1126,7 @@ pub fn generate(prop: &str, rng: &mut Rng, thorough: bool) -> Vec<Scenario> {
         "C01" => vec![match rng.below(8) {
             0 => c01_prefix_tail(rng, thorough),
             1 => c01_clusters(rng, thorough),
+            2 => c01_zero_prefix(rng, thorough),
             _ => c01(rng, thorough),
         }],
         "C02" => vec![c02(rng, thorough)],
